@@ -35,11 +35,17 @@ def run(ctx):
         for i in range(n):
             c = E.make_case(rng, s, size=rng.choice([0.3, 1.0]), gen_api=True, klass='generated-api')
             cases.append(c)
+        if s.unions:        # more union-vector builds (generated <Member>_push* variants, strings with NULs)
+            for i in range(n // 2):
+                cases.append(E.make_case(rng, s, size=rng.choice([1.0, 2.5]), gen_api=True, klass='generated-api-unions'))
         for st in s.structs:
             for k in range(4 if not ctx.thorough else 30):
                 cases.append(E.make_case(rng, s, root=st))
         for i in range(5 if not ctx.thorough else 50):
             cases.append(E.make_case(rng, s, maxdepth=rng.choice([4, 5]), size=rng.choice([1.0, 4.0]), klass='deep'))
+    if 'bwide' in E.BC:
+        for i in range(6 if not ctx.thorough else 60):
+            cases.append(E.make_wide_case(rng, count=rng.choice([100, 130, 200])))
     E.run_builds(cases)
     # probe (full UBSan incl. alignment): a struct with force_align 16 written through the generated <struct>_create
     if 'bnest' in E.HP:
